@@ -30,7 +30,7 @@ def camel(snake):
 
 class Enc:
     def __init__(self, name, iset, diagram, sem=None, guard=None, undefined=None, unpred=None, cond=None, attrs=None,
-                 arch=4, family='', it_ok=True, sbz_unpred=True, notes='', notimpl=None):
+                 arch=4, family='', it_ok=True, sbz_unpred=True, notes='', notimpl=None, known=None):
         """name: repository class name. iset: 'A' | 'T16' | 'T32'.
         cond: None -> default ('arm' cond field for A if the diagram has one, IT-derived for Thumb);
               'field' -> Thumb conditional branch field named cond; 'none' -> always executes."""
@@ -46,6 +46,7 @@ class Enc:
         self.family = family
         self.notes = notes
         self.notimpl = notimpl  # (f, S) -> Bool: the repository reports an unimplemented feature (mock hook)
+        self.known = known or []  # [(finding id, (f, S) -> Bool region)]: excluded only while the finding is open
         self.length = 16 if iset == 'T16' else 32
         self.thumb = iset != 'A'
         self.items = self._parse(diagram)
